@@ -305,20 +305,26 @@ func (l *Lexer) readBString() string {
 }
 
 func (l *Lexer) readHTML() string {
-	position := l.position
+	var sb strings.Builder
 
 	for l.ch != 0 {
-		if l.ch == '\\' && l.prevChar() == '\\' && l.peekChar() == '<' {
-			// escape escaping
+		rest := l.input[l.position:]
+
+		if strings.HasPrefix(rest, `\\<%`) {
+			// escape escaping: one backslash, then a live tag
+			sb.WriteByte('\\')
 			l.readChar()
-			x := l.input[position : l.position-1]
-			return x
+			l.readChar()
+			break
 		}
 
 		// allow for expression escaping using \<% foo %>
-		if l.ch == '\\' && l.peekChar() == '<' {
+		if strings.HasPrefix(rest, `\<%`) {
+			sb.WriteString("<%")
 			l.readChar()
 			l.readChar()
+			l.readChar()
+			continue
 		}
 
 		if l.ch == '<' && l.peekChar() == '%' {
@@ -326,9 +332,11 @@ func (l *Lexer) readHTML() string {
 			break
 		}
 
+		sb.WriteByte(l.ch)
 		l.readChar()
 	}
-	return strings.Replace(l.input[position:l.position], "\\<%", "<%", -1)
+
+	return sb.String()
 }
 
 func isLetter(ch byte) bool {
